@@ -45,12 +45,12 @@ PROP = dict(
     ],
     assumptions=[
         "absence of internal failures (panics, hangs, non-rectangular tables) in the Go code is EXPLORED, not proved: corpus + loader fuzzing + boundary sweeps + file-system conditions with the real binary (see rule); DESIGN.md states C19 as 'partial'",
-        "csv_load_rectangular / ltsv_load_rectangular (loader shape theorems) are delivered by the codec model (separate files); fixed_load_rectangular is not delivered",
+        "csv_load_rectangular / ltsv_load_rectangular are proved in the codec development (Csvq.Proofs.Csv.csv_load_rect, Csvq.Proofs.Ltsv.ltsv_load_rect, stated as C19_csv_load_rectangular / C19_ltsv_load_rectangular in Properties/C02.v and tied to the code by H02's not-rectangular kind); this file set adds fixed_load_rectangular for explicit position lists on valid UTF-8 (automatic SPACES detection, other encodings and the JSON/JSONL loaders are fuzzed only)",
         "every process runs with 1 GB of address space and 10 s of wall clock: exhausting either counts as a failure of csvq (an unbounded allocation or loop on a small input)",
         "permission conditions are exercised as uid 65534 through setpriv when the check runs as root; skipped (noted) when setpriv is missing",
     ],
-    level_text="Proof (partial, as DESIGN.md states for C19): 12 Coq theorems (Properties/C19.v) about an executable model of csvq's error classes -- one constructor per error constructor of lib/query/error.go (119 static classes, a finite enumeration: static_classes_bound, lifted to `forall e` by forallb_forall and the completeness lemma static_classes_enumerated), EXIT n / TRIGGER ERROR n / signal n for ALL integers n, and foreign Go errors -- and of cli.Exit: exit_code_total / exit_code_documented (every class exits with the code the manual documents for it: 1,2,4,8,16,32,64 by category, the requested code, or 128+signal), exit_code_zero_only_on_request and status_zero_only_success_or_request (status 0 = success or the program asked for a multiple of 256; the unrestricted statement is refuted by EXIT 256), status_of_errors_is_documented (no truncation for non-requested codes), error_number_determines_code / error_number_band. Tie to the code: on every run translator/c19 (go/ast) re-extracts the error table, the ReturnCode constants and the shape of cli.Exit from the current source and Coq compares them with the pinned model by vm_compute (a new error type or changed code breaks the obligation); ~125 programs reaching ~90 distinct error numbers are run through action.Run and through the real binary and number / Code() / exit status compared with process_status. EXPLORED ONLY (no proof): that the Go code never panics, hangs or loads a non-rectangular table -- corpus of minimised failing inputs, byte-level fuzzing of all six loaders x option vectors with a rectangularity check of the output, boundary sweeps of every built-in function (names extracted from the source at run time) and clause, command-line values, file-system conditions, and the translator obligation 'no selector on a provably nil error variable' (2 known sites).",
-    level_note="Trusted: Coq kernel + vm_compute; the go/ast translator; the Go harness and its outcome classification; the hand transcription of the manual's return-code table. Not covered: loader shape theorems (codec model, separate), fixed-length loader model, signals other than SIGINT/SIGTERM, interactive shell, network (URL tables), Windows. Internal-failure freedom is a search result, bounded by the generators described in `rule`.",
+    level_text="Proof (partial, as DESIGN.md states for C19): 18 Coq theorems (+6 examples) (Properties/C19.v) about an executable model of csvq's error classes -- one constructor per error constructor of lib/query/error.go (119 static classes, a finite enumeration: static_classes_bound, lifted to `forall e` by forallb_forall and the completeness lemma static_classes_enumerated), EXIT n / TRIGGER ERROR n / signal n for ALL integers n, and foreign Go errors -- and of cli.Exit: exit_code_total / exit_code_documented (every class exits with the code the manual documents for it: 1,2,4,8,16,32,64 by category, the requested code, or 128+signal), exit_code_zero_only_on_request and status_zero_only_success_or_request (status 0 = success or the program asked for a multiple of 256; the unrestricted statement is refuted by EXIT 256), status_of_errors_is_documented (no truncation for non-requested codes), error_number_determines_code / error_number_band; and about an executable model of the fixed-length loader (go-text/fixedlen parseRecord + loadViewFromFixedLengthTextFile, explicit positions, UTF-8): fixed_load_rectangular (for every position list, option vector and input: error, or one header name and one cell per record for each position), fixed_record_progress and fixed_load_total_partial (termination unless single-line mode meets an empty position list; the unrestricted statement is refuted by 'S[]', a reproduced finding). Tie to the code: on every run translator/c19 (go/ast) re-extracts the error table, the ReturnCode constants and the shape of cli.Exit from the current source and Coq compares them with the pinned model by vm_compute (a new error type or changed code breaks the obligation); ~125 programs reaching ~90 distinct error numbers are run through action.Run and through the real binary and number / Code() / exit status compared with process_status; SELECT * FROM FIXED(...) of the real binary on random texts x position lists x option vectors is compared cell by cell (NULL vs empty, header autofill) with the model. EXPLORED ONLY (no proof): that the Go code never panics, hangs or loads a non-rectangular table -- corpus of minimised failing inputs, byte-level fuzzing of all six loaders x option vectors with a rectangularity check of the output, boundary sweeps of every built-in function (names extracted from the source at run time) and clause, command-line values, file-system conditions, and the translator obligation 'no selector on a provably nil error variable' (2 known sites).",
+    level_note="Trusted: Coq kernel + vm_compute; the go/ast translator; the Go harness and its outcome classification; the hand transcription of the manual's return-code table. Not covered here: CSV/LTSV loader shape theorems (codec development), SPACES auto-detection and non-UTF-8 encodings of the fixed-length loader, JSON loaders (fuzzed only), signals other than SIGINT/SIGTERM, interactive shell, network (URL tables), Windows. Internal-failure freedom is a search result, bounded by the generators described in `rule`.",
     technique="Coq shape/exit-code theorems; internal-failure freedom explored by sweeps (stated as partial)",
     design_ref="DESIGN.md section 5 (C19), section 6 (F-C19-1..5, F-C07-2), section 12",
 )
